@@ -6,6 +6,7 @@ written as {"lit": ...} so that an int index is never mistaken for a literal.
 """
 import itertools
 
+from mc import env
 from ref import tree
 
 VALID_ID = "1a2b3c4d-2222-4333-8444-5555555555ef"     # with hex letters, so that the upper-case spelling differs
@@ -146,7 +147,7 @@ def apply_op(pool, op):
             raise ValueError("unknown op %r" % (op,))
         return ("ok", None)
     except Exception as exc:
-        return ("raise", type(exc).__name__)
+        return ("raise", env.exc_label(exc))
     finally:
         absorb(pool)
 
